@@ -139,6 +139,9 @@ type unit struct {
 	sender    bool              // see sender.go: fields and slices of values of the outside world, calls of functions with endless loops
 	pkgConsts map[string]string // see sender.go: package name -> file (relative to the repository) whose string constants give pkg.Name its value
 	tails     []tailSpec        // see sender.go: tails of functions translated as definitions of their own
+
+	spawn  bool // see daemon.go: `go f(args)` is the external call "go:f"
+	extObj bool // see daemon.go: a method called on a local that holds an answer of the outside world is "obj.<Method>" [x; ...]
 }
 
 type world struct {
@@ -1212,7 +1215,7 @@ func (f *fnTr) call(c *ast.CallExpr, en env, k func(val, env) string) string {
 	}
 	// a method called on a token (a pointer or string of the outside world): the token is the first argument
 	if sel, ok := c.Fun.(*ast.SelectorExpr); ok && !f.isOpaque(sel.X, en) && f.translatable(sel.X, en) {
-		if kd := f.kindOf(sel.X, en); kd == kTok || kd == kStrTok || (kd == kExt && (f.u.strTok || f.u.byteTok)) {
+		if kd := f.kindOf(sel.X, en); kd == kTok || kd == kStrTok || (kd == kExt && (f.u.strTok || f.u.byteTok)) || f.extObjKind(kd) {
 			return f.expr(sel.X, en, func(h val, en env) string {
 				name = "obj." + sel.Sel.Name
 				parts = append(parts, "AInt "+h.code)
@@ -1516,6 +1519,7 @@ func (f *fnTr) block(items []item, en env, defers []deferred) string {
 			return f.finishReturn(f.coerceResult(v, want), en, defers)
 		})
 	case *ast.DeferStmt:
+		f.refuseDeferInLoop(s)
 		return f.block(rest, en, append(append([]deferred{}, defers...), deferred{s.Call}))
 	case *ast.ExprStmt:
 		return f.expr(s.X, en, func(_ val, en env) string { return f.block(rest, en, defers) })
@@ -1598,6 +1602,8 @@ func (f *fnTr) block(items []item, en env, defers []deferred) string {
 		return f.forStmt(s, rest, en, defers)
 	case *ast.BranchStmt:
 		return f.branchStmt(s, en)
+	case *ast.GoStmt:
+		return f.goStmt(s, rest, en, defers)
 	case *ast.SwitchStmt:
 		return f.block(append([]item{{s: f.switchAsIf(s, en)}}, rest...), en, defers)
 	case *ast.RangeStmt:
@@ -2675,6 +2681,16 @@ var fnUnits = []*unit{
 		pkgConsts: map[string]string{"headers": "headers/headers.go"},
 		tails: []tailSpec{{fn: "runMain", from: "sendCameraSpecs", name: "runMain_tail",
 			params: "conf *Config, camera *lepton3.Lepton3, conn *net.UnixConn, service *leptondService, err error"}}},
+	// the recorder daemon's start-up sequence and accept loop (daemon.go): runMain from its call of startService on;
+	// deleteTempFiles and handleConn stay calls that leave this unit (they are translated and tied in FileCleanup / ConnLoop)
+	{name: "MainLoop", dir: "cmd/thermal-recorder", files: []string{"main.go"},
+		funcs: []string{"runMain_tail"}, skip: map[string]bool{},
+		opaque: []string{"net.Listener"}, outside: true, spawn: true, extObj: true,
+		extResults: map[string][]string{"net.Listen": {"net.Listener", "error"}},
+		tails:      []tailSpec{{fn: "runMain", from: "startService", name: "runMain_tail", params: "conf *Config, err error"}}},
+	// the throttle's event sink (daemon.go): one D-Bus call per throttled incident
+	{name: "ThrottleEvents", dir: "throttle", files: []string{"throttled_event_recorder.go"},
+		skip: map[string]bool{}, outside: true, sender: true, extObj: true, noRecv: []string{"ThrottledEventRecorder"}},
 }
 
 // ---------------------------------------------------------------------------------------
